@@ -2,13 +2,25 @@ import HdVerif.Model.Basic
 import HdVerif.Generated.T16a
 import HdVerif.Generated.T16b
 import HdVerif.Generated.T16c
+import HdVerif.Generated.T15e
 /-! C16: measurement-report queries (`sr/templates.py`).
 
 A measurement group is the list of the top-level content items of its CONTAINER (plus the IMAGE children of
 SCOORD items) and its optional template identifier.  The kind classification by content counting, the
 argument checks and the literal tables are the definitions translated from the current source
-(`Generated/T16a..c`); the loops, the filter predicates and the search for the ROI reference items are
-modelled by hand (tie C).  Codes are "value|scheme" strings, UIDs strings. -/
+(`Generated/T16a..c`, the enumerations of graphic types `Generated/T15e`); the loops, the filter predicates and the search
+for the ROI reference items are modelled by hand (tie C).  Codes are "value|scheme" strings, UIDs strings.
+
+Error arms.  Besides the argument checks and the RuntimeErrors of the ROI search the loop body fails on three kinds of
+stored item a report read from a file or tampered with in memory can contain: a stored GraphicType outside the
+enumeration the filter's branch reads it into (ValueError), a reference item / source image item without a
+ReferencedSOPSequence where its UIDs are compared (AttributeError), a SCOORD region without a ContentSequence where its
+source images are searched (AttributeError); and the conversion `…from_sequence([group_item])` of a group about to be
+returned refuses an IMAGE / COMPOSITE item without ReferencedSOPSequence at any depth the model represents
+(AttributeError), and a SCOORD / SCOORD3D item without GraphicType (AttributeError).  The `…P` definitions are the same loop bodies without these arms; `Group.sound` is the condition
+under which both agree (`Proofs.keep_sound`).  NOT modelled: the remaining per-value-type attribute requirements of the
+conversion (they are the subject of C13 / C14), CODE / UIDREF / TEXT items without their value attribute, value types
+or relationship types outside their enumerations. -/
 namespace HdVerif.SRReport
 open HdVerif
 
@@ -34,6 +46,7 @@ structure GItem where
   graphic : String := ""        -- GraphicType of SCOORD / SCOORD3D
   ref : Option Ref := none      -- ReferencedSOPSequence[0] of IMAGE / COMPOSITE
   kids : List Kid := []
+  hasSeq : Bool := false        -- the item has a ContentSequence attribute (only read on SCOORD regions)
 deriving DecidableEq, Repr
 
 structure Group where
@@ -133,6 +146,48 @@ def containsImage (g : Group) (name rel : String) (cls inst : Option String) : B
 def kidsContainImage (it : GItem) (cls inst : Option String) : Bool :=
   it.kids.any (fun k => k.vt == "IMAGE" && k.rel == "SELECTED FROM" && refMatches k.ref cls inst)
 
+/-- the loop of `_contains_image_items` over the references of the matched items: an item whose UIDs are compared must
+carry a ReferencedSOPSequence (AttributeError otherwise); the first matching item ends the loop -/
+def imageLoop (cls inst : Option String) : List (Option Ref) → Except ErrKind Bool
+  | [] => .ok false
+  | none :: _ => if cls.isNone && inst.isNone then .ok true else .error .attribute
+  | some r :: rest => if refMatches (some r) cls inst then .ok true else imageLoop cls inst rest
+
+/-- `_contains_image_items(group_item, …)` with its error arm -/
+def containsImageE (g : Group) (name rel : String) (cls inst : Option String) : Except ErrKind Bool :=
+  imageLoop cls inst ((g.items.filter (fun it => it.name == name && it.vt == "IMAGE" && it.rel == rel)).map (·.ref))
+
+/-- `_contains_image_items(ref_item, None, …, SELECTED_FROM)` with its error arms: `find_content_items` refuses an item
+without ContentSequence -/
+def kidsContainImageE (it : GItem) (cls inst : Option String) : Except ErrKind Bool :=
+  if !it.hasSeq then .error .attribute
+  else imageLoop cls inst ((it.kids.filter (fun k => k.vt == "IMAGE" && k.rel == "SELECTED FROM")).map (·.ref))
+
+/-! ## stored values a report may carry wrongly -/
+
+/-- `GraphicTypeValues(item.GraphicType)` / `GraphicTypeValues3D(item.GraphicType)` ("" = attribute absent) -/
+def graphicRead (is2d : Bool) (g : String) : Except ErrKind String :=
+  if (if is2d then Gen.srGraphicTypes2D else Gen.srGraphicTypes3D).contains g then .ok g
+  else if g == "" then .error .attribute else .error .value
+
+def Kid.sound (k : Kid) : Bool := !(k.vt == "IMAGE" || k.vt == "COMPOSITE") || k.ref.isSome
+
+/-- what the conversion of a returned group checks of an item, as far as the model represents it -/
+def GItem.convertible (it : GItem) : Bool :=
+  (!(it.vt == "IMAGE" || it.vt == "COMPOSITE") || it.ref.isSome) &&
+  (!(it.vt == "SCOORD" || it.vt == "SCOORD3D") || it.graphic != "") && it.kids.all Kid.sound
+
+/-- the item carries what the query code reads of it -/
+def GItem.sound (it : GItem) : Bool :=
+  (!(it.vt == "SCOORD") || (Gen.srGraphicTypes2D.contains it.graphic && it.hasSeq)) &&
+  (!(it.vt == "SCOORD3D") || Gen.srGraphicTypes3D.contains it.graphic) &&
+  it.convertible
+
+def Group.sound (g : Group) : Bool := g.items.all GItem.sound
+
+/-- `ContentSequence.from_sequence([group_item])` as far as modelled -/
+def Group.convertible (g : Group) : Bool := g.items.all GItem.convertible
+
 /-! ## ROI reference items -/
 
 /-- the loop of `_get_roi_reference_items` (reference type found so far, items collected so far) -/
@@ -190,10 +245,69 @@ def commonMatches (g : Group) (f : Filters) : Bool :=
   (match f.findingSite with | none => true | some v => containsCode g cFindingSite v "HAS CONCEPT MOD") &&
   (match f.trackingUid with | none => true | some v => containsUidref g cTrackingUid v "HAS OBS CONTEXT")
 
-/-- graphic-type entry of `matches` for the (first) reference item -/
+/-- graphic-type entry of `matches` of the planar query (one reference item), without the error arm -/
 def graphicMatches (it : GItem) (gt : Bool × String) : Bool :=
   if gt.1 then (if it.vt == "SCOORD" then it.graphic == gt.2 else false)
   else (if it.vt == "SCOORD3D" then it.graphic == gt.2 else false)
+
+/-- graphic-type entry of the planar query: the stored string is read into the enumeration of the filter's branch -/
+def graphicEntry (it : GItem) (gt : Bool × String) : Except ErrKind Bool :=
+  if it.vt == (if gt.1 then "SCOORD" else "SCOORD3D") then
+    match graphicRead gt.1 it.graphic with
+    | .error x => .error x
+    | .ok s => .ok (s == gt.2)
+  else .ok false
+
+/-- graphic-type entry of the volumetric query, without the error arm: SOME reference item of the branch's value type
+has the graphic type -/
+def volGraphicMatches (items : List GItem) (gt : Bool × String) : Bool :=
+  items.any (fun it => it.vt == (if gt.1 then "SCOORD" else "SCOORD3D") && it.graphic == gt.2)
+
+/-- `[GraphicTypeValues…(item.GraphicType) for item in ref_items if item.value_type == …]` -/
+def graphicReadAll (is2d : Bool) : List GItem → Except ErrKind (List String)
+  | [] => .ok []
+  | it :: rest =>
+    if it.vt == (if is2d then "SCOORD" else "SCOORD3D") then
+      match graphicRead is2d it.graphic with
+      | .error x => .error x
+      | .ok s =>
+        match graphicReadAll is2d rest with
+        | .error x => .error x
+        | .ok l => .ok (s :: l)
+    else graphicReadAll is2d rest
+
+/-- graphic-type entry of the volumetric query: `graphic_type in found_gts` -/
+def volGraphicEntry (items : List GItem) (gt : Bool × String) : Except ErrKind Bool :=
+  match graphicReadAll gt.1 items with
+  | .error x => .error x
+  | .ok l => .ok (l.contains gt.2)
+
+/-- `sop_seq = ref_item.ReferencedSOPSequence[0]` and the comparison of its UIDs, for reference types `names` -/
+def refItemUid (names : List String) (t : String) (it : GItem) (f : Filters) : Except ErrKind Bool :=
+  if names.contains t then
+    match it.ref with
+    | none => .error .attribute
+    | some r => .ok (refMatches (some r) f.cls f.inst)
+  else .ok false
+
+/-- the referenced-UID entry of the planar query -/
+def planarUid (g : Group) (t : String) (it : GItem) (f : Filters) : Except ErrKind Bool :=
+  match refItemUid [cReferencedSegmentationFrame, cRegionInSpace] t it f with
+  | .error x => .error x
+  | .ok a =>
+    match (if t == cImageRegion && it.vt == "SCOORD" then kidsContainImageE it f.cls f.inst else .ok false) with
+    | .error x => .error x
+    | .ok b =>
+      match (if t == cReferencedSegmentationFrame then containsImageE g cSourceImageForSegmentation "CONTAINS" f.cls f.inst
+             else .ok false) with
+      | .error x => .error x
+      | .ok c => .ok (a || b || c)
+
+/-- the same entry without the error arms -/
+def planarUidP (g : Group) (t : String) (it : GItem) (f : Filters) : Bool :=
+  ([cReferencedSegmentationFrame, cRegionInSpace].contains t && refMatches it.ref f.cls f.inst) ||
+  (t == cImageRegion && it.vt == "SCOORD" && kidsContainImage it f.cls f.inst) ||
+  (t == cReferencedSegmentationFrame && containsImage g cSourceImageForSegmentation "CONTAINS" f.cls f.inst)
 
 /-- body of the planar loop after the kind test -/
 def planarKeep (g : Group) (f : Filters) : Except ErrKind Bool :=
@@ -203,14 +317,55 @@ def planarKeep (g : Group) (f : Filters) : Except ErrKind Bool :=
     | .error x => .error x
     | .ok (t, it) =>
       let mRef := match f.referenceType with | none => true | some r => t == r
+      match ((match f.graphic with | none => .ok true | some gt => graphicEntry it gt) : Except ErrKind Bool) with
+      | .error x => .error x
+      | .ok mGt =>
+        match (if f.hasUid then planarUid g t it f else .ok true) with
+        | .error x => .error x
+        | .ok mUid => .ok (commonMatches g f && mRef && mGt && mUid)
+
+/-- the planar loop body without the error arms of malformed stored items -/
+def planarKeepP (g : Group) (f : Filters) : Except ErrKind Bool :=
+  if !f.needsRef then .ok (commonMatches g f)
+  else
+    match planarRefItem g with
+    | .error x => .error x
+    | .ok (t, it) =>
+      let mRef := match f.referenceType with | none => true | some r => t == r
       let mGt := match f.graphic with | none => true | some gt => graphicMatches it gt
-      let mUid :=
-        if f.hasUid then
-          ((t == cReferencedSegmentationFrame || t == cRegionInSpace) && refMatches it.ref f.cls f.inst) ||
-          (t == cImageRegion && it.vt == "SCOORD" && kidsContainImage it f.cls f.inst) ||
-          (t == cReferencedSegmentationFrame && containsImage g cSourceImageForSegmentation "CONTAINS" f.cls f.inst)
-        else true
+      let mUid := if f.hasUid then planarUidP g t it f else true
       .ok (commonMatches g f && mRef && mGt && mUid)
+
+/-- the loop over the 2-D regions of a volumetric ROI: every SCOORD region is searched (no early exit) -/
+def regionsLoop (cls inst : Option String) : List GItem → Except ErrKind Bool
+  | [] => .ok false
+  | it :: rest =>
+    if it.vt == "SCOORD" then
+      match kidsContainImageE it cls inst with
+      | .error x => .error x
+      | .ok b =>
+        match regionsLoop cls inst rest with
+        | .error x => .error x
+        | .ok b' => .ok (b || b')
+    else regionsLoop cls inst rest
+
+/-- the referenced-UID entry of the volumetric query -/
+def volumetricUid (g : Group) (t : String) (first : GItem) (items : List GItem) (f : Filters) : Except ErrKind Bool :=
+  match refItemUid [cReferencedSegment, cRegionInSpace] t first f with
+  | .error x => .error x
+  | .ok a =>
+    match (if t == cImageRegion then regionsLoop f.cls f.inst items else .ok false) with
+    | .error x => .error x
+    | .ok b =>
+      match (if t == cReferencedSegment then containsImageE g cSourceImageForSegmentation "CONTAINS" f.cls f.inst
+             else .ok false) with
+      | .error x => .error x
+      | .ok c => .ok (a || b || c)
+
+def volumetricUidP (g : Group) (t : String) (first : GItem) (items : List GItem) (f : Filters) : Bool :=
+  ([cReferencedSegment, cRegionInSpace].contains t && refMatches first.ref f.cls f.inst) ||
+  (t == cImageRegion && items.any (fun it => it.vt == "SCOORD" && kidsContainImage it f.cls f.inst)) ||
+  (t == cReferencedSegment && containsImage g cSourceImageForSegmentation "CONTAINS" f.cls f.inst)
 
 /-- body of the volumetric loop after the kind test -/
 def volumetricKeep (g : Group) (f : Filters) : Except ErrKind Bool :=
@@ -221,28 +376,65 @@ def volumetricKeep (g : Group) (f : Filters) : Except ErrKind Bool :=
     | .ok (_, []) => .error .index
     | .ok (t, first :: more) =>
       let mRef := match f.referenceType with | none => true | some r => t == r
-      let mGt := match f.graphic with | none => true | some gt => graphicMatches first gt
-      let mUid :=
-        if f.hasUid then
-          ((t == cReferencedSegment || t == cRegionInSpace) && refMatches first.ref f.cls f.inst) ||
-          (t == cImageRegion && (first :: more).any (fun it => it.vt == "SCOORD" && kidsContainImage it f.cls f.inst)) ||
-          (t == cReferencedSegment && containsImage g cSourceImageForSegmentation "CONTAINS" f.cls f.inst)
-        else true
+      match ((match f.graphic with | none => .ok true | some gt => volGraphicEntry (first :: more) gt) : Except ErrKind Bool) with
+      | .error x => .error x
+      | .ok mGt =>
+        match (if f.hasUid then volumetricUid g t first (first :: more) f else .ok true) with
+        | .error x => .error x
+        | .ok mUid => .ok (commonMatches g f && mRef && mGt && mUid)
+
+def volumetricKeepP (g : Group) (f : Filters) : Except ErrKind Bool :=
+  if !f.needsRef then .ok (commonMatches g f)
+  else
+    match roiRefItems g Gen.volumetricAllowedRefTypes with
+    | .error x => .error x
+    | .ok (_, []) => .error .index
+    | .ok (t, first :: more) =>
+      let mRef := match f.referenceType with | none => true | some r => t == r
+      let mGt := match f.graphic with | none => true | some gt => volGraphicMatches (first :: more) gt
+      let mUid := if f.hasUid then volumetricUidP g t first (first :: more) f else true
       .ok (commonMatches g f && mRef && mGt && mUid)
 
-/-- body of the image loop after the kind test -/
+/-- body of the image loop after the kind test (the filters; the conversion follows in `keep`) -/
 def imageKeep (g : Group) (f : Filters) : Except ErrKind Bool :=
+  match (if f.hasUid then containsImageE g cSource "CONTAINS" f.cls f.inst else .ok true) with
+  | .error x => .error x
+  | .ok mUid => .ok (commonMatches g f && mUid)
+
+def imageKeepP (g : Group) (f : Filters) : Except ErrKind Bool :=
   .ok (commonMatches g f && (if f.hasUid then containsImage g cSource "CONTAINS" f.cls f.inst else true))
 
+/-- `seq = ….from_sequence([group_item])` of a group about to be returned -/
+def convertKept (g : Group) : Except ErrKind Bool → Except ErrKind Bool
+  | .error x => .error x
+  | .ok false => .ok false
+  | .ok true => if g.convertible then .ok true else .error .attribute
+
+/-- one pass of the loop body: kind test, filters, conversion.  The planar and the volumetric query convert a group
+only when every filter matched; the image query converts every group of its kind, after the filters. -/
 def keep (k : Kind) (g : Group) (f : Filters) : Except ErrKind Bool :=
   match isKind k g with
   | .error x => .error x
   | .ok false => .ok false
   | .ok true =>
     match k with
-    | .planar => planarKeep g f
-    | .volumetric => volumetricKeep g f
-    | .image => imageKeep g f
+    | .planar => convertKept g (planarKeep g f)
+    | .volumetric => convertKept g (volumetricKeep g f)
+    | .image =>
+      match imageKeep g f with
+      | .error x => .error x
+      | .ok b => if g.convertible then .ok b else .error .attribute
+
+/-- the loop body without the error arms of malformed stored items -/
+def keepP (k : Kind) (g : Group) (f : Filters) : Except ErrKind Bool :=
+  match isKind k g with
+  | .error x => .error x
+  | .ok false => .ok false
+  | .ok true =>
+    match k with
+    | .planar => planarKeepP g f
+    | .volumetric => volumetricKeepP g f
+    | .image => imageKeepP g f
 
 /-- the loop over the measurement groups: positions (in document order) of the groups kept -/
 def queryLoop (k : Kind) (f : Filters) : List Group → Nat → Except ErrKind (List Nat)
@@ -312,12 +504,12 @@ def seriesItems : Option String → List GItem
 
 /-- the ROI reference items the constructors append -/
 def refItems : RoiRef → List GItem
-  | .region2d gr s => [{ name := cImageRegion, vt := "SCOORD", rel := "CONTAINS", graphic := gr, kids := [srcKid s] }]
+  | .region2d gr s => [{ name := cImageRegion, vt := "SCOORD", rel := "CONTAINS", graphic := gr, kids := [srcKid s], hasSeq := true }]
   | .region3d gr => [{ name := cImageRegion, vt := "SCOORD3D", rel := "CONTAINS", graphic := gr }]
   | .segframe seg s =>
     [{ name := cReferencedSegmentationFrame, vt := "IMAGE", rel := "CONTAINS", ref := some seg },
      { name := cSourceImageForSegmentation, vt := "IMAGE", rel := "CONTAINS", ref := some s }]
-  | .regions2d rs => rs.map (fun x => { name := cImageRegion, vt := "SCOORD", rel := "CONTAINS", graphic := x.1, kids := [srcKid x.2] })
+  | .regions2d rs => rs.map (fun x => { name := cImageRegion, vt := "SCOORD", rel := "CONTAINS", graphic := x.1, kids := [srcKid x.2], hasSeq := true })
   | .segment seg srcs ser =>
     [{ name := cReferencedSegment, vt := "IMAGE", rel := "CONTAINS", ref := some seg }] ++ srcItems srcs ++ seriesItems ser
   | .surface gr n srcs ser =>
@@ -355,7 +547,7 @@ def fixedNames : List String :=
 /-- executable form of the hypothesis on the optional context items (`ContextItemOK` in the proofs) -/
 def contextItemOK (it : GItem) : Bool :=
   (it.vt == "TEXT" || ((it.vt == "CODE" || it.vt == "NUM") && it.rel == "HAS OBS CONTEXT") ||
-   (it.vt == "COMPOSITE" && it.name == cRwvm)) && !fixedNames.contains it.name
+   (it.vt == "COMPOSITE" && it.name == cRwvm)) && !fixedNames.contains it.name && it.sound
 
 /-- `find_content_items(root_item, name=…, value_type=…)` without recursion: the values of the matching items -/
 def valuesOf (g : Group) (name vt : String) : List String :=
@@ -408,13 +600,13 @@ def RoiRef.instances : RoiRef → List Ref
   | .regionInSpace r => [r]
   | .images srcs => srcs
 
-/-- (2-D?, graphic type) of the first ROI item -/
-def RoiRef.firstGraphic : RoiRef → Option (Bool × String)
-  | .region2d g _ => some (true, g)
-  | .region3d g => some (false, g)
-  | .regions2d ((g, _) :: _) => some (true, g)
-  | .surface g (_ + 1) _ _ => some (false, g)
-  | _ => none
+/-- (2-D?, graphic type) of every region / surface of the ROI -/
+def RoiRef.graphics : RoiRef → List (Bool × String)
+  | .region2d g _ => [(true, g)]
+  | .region3d g => [(false, g)]
+  | .regions2d rs => rs.map (fun x => (true, x.1))
+  | .surface g n _ _ => List.replicate n (false, g)
+  | _ => []
 
 /-- kind of a container WITHOUT template identification, by what it was constructed with -/
 def contentKind : Kind → RoiRef → Bool
@@ -452,7 +644,7 @@ def specFilters (k : Kind) (p : Params) (f : Filters) : Bool :=
   | .image => specCommon p f && specUid p f
   | _ =>
     specCommon p f && optEq f.referenceType p.ref.refType &&
-    (match f.graphic with | none => true | some gt => p.ref.firstGraphic == some gt) && specUid p f
+    (match f.graphic with | none => true | some gt => p.ref.graphics.contains gt) && specUid p f
 
 /-- what the constructors accept: the reference fits the kind, region lists / surfaces are not empty -/
 def Params.consistent (p : Params) : Bool :=
@@ -463,5 +655,14 @@ def Params.consistent (p : Params) : Bool :=
   | .volumetric, .surface _ n _ _ => decide (n > 0)
   | .image, .images _ => true
   | _, _ => false
+
+/-- the graphic types are members of the enumeration the region class takes them from -/
+def Params.graphicsValid (p : Params) : Bool :=
+  match p.ref with
+  | .region2d g _ => Gen.srGraphicTypes2D.contains g
+  | .region3d g => Gen.srGraphicTypes3D.contains g
+  | .regions2d rs => rs.all (fun x => Gen.srGraphicTypes2D.contains x.1)
+  | .surface g _ _ _ => Gen.srGraphicTypes3D.contains g
+  | _ => true
 
 end HdVerif.SRReport
